@@ -35,8 +35,7 @@ Definition jobs_val (o : jobs) : jval := match o with JObsInt n => JInt n | JObs
    On that alphabet a document is: white space, then either a number 0 | [1-9][0-9]* or a string
    '"' [^"\\ and no control character]* '"', then white space; everything else raises. *)
 Definition is_json_ws (c : N) : bool := (c =? 32) || (c =? 9) || (c =? 10) || (c =? 13).
-Fixpoint lstrip_ws (t : text) : text :=
-  match t with c :: r => if is_json_ws c then lstrip_ws r else t | [] => [] end.
+Definition lstrip_ws : text -> text := lstrip is_json_ws.
 Definition strip_ws (t : text) : text := rev (lstrip_ws (rev (lstrip_ws t))).
 Definition is_digit (c : N) : bool := (48 <=? c) && (c <=? 57).
 Definition digits_val (ds : text) : N := fold_left (fun a d => a * 10 + (d - 48)) ds 0.
@@ -69,6 +68,8 @@ Definition jsonl_byte_ok (b : N) : bool :=
 Inductive c19_case :=
   (* list(iter_splitlines(t)) ; t.splitlines() (validates the Spec's splitlines against Python's) *)
 | CSplit (t : rtext) (obs : list rtext) (py : list rtext)
+  (* indent(t, margin, newline) *)
+| CIndent (t margin newline : rtext) (obs : rtext)
   (* list(reverse_iter_lines(f, blocksize)) for each listed blocksize on a fresh file object with
      content c; pos = Some p: preseek=False with the cursor at p *)
 | CRev (c : rtext) (m : fmode) (pos : option N) (runs : list (N * res (list rtext)))
@@ -107,6 +108,12 @@ Definition c19_verdict (k : c19_case) : verdict :=
                    && (existsb is_sep_ctl t || lines_eqb (splitlines is_break t) py) in
       let holds := lines_eqb obs (iter_splitlines_spec t) in
       (agree, holds, false)
+  | CIndent rt rm rn robs =>
+      let t := expand rt in
+      let m := expand rm in
+      let n := expand rn in
+      let obs := expand robs in
+      (text_eqb (indent gen_breaks t m n) obs, text_eqb obs (indent_spec t m n), false)
   | CRev rc m pos rruns =>
       let c := expand rc in
       let p := pos_of c pos in
@@ -125,6 +132,9 @@ Definition c19_verdict (k : c19_case) : verdict :=
                         || forallb (fun '(_, o) => lres_eqb o (Ok (reverse_lines_spec t))) runs
             | None => true          (* not a text: outside the property's domain *)
             end
+        | TextLatin1 =>             (* the text's code points are the byte values *)
+            negb (no_lone_cr pre)
+            || forallb (fun '(_, o) => lres_eqb o (Ok (reverse_lines_spec pre))) runs
         end in
       (agree, same && spec_ok && negb (is_nil runs), false)
   | CJsonl rc m ie rfwd rrev =>
@@ -156,6 +166,11 @@ Definition c19_verdict (k : c19_case) : verdict :=
                             && mirrored)
             | None => true
             end
+        | TextLatin1 =>
+            negb (no_lone_cr c)
+            || (jres_eqb fwd (Ok (jsonl_forward_spec mini_loads is_ws_str ie c))
+                && jres_eqb rev_ (Ok (jsonl_reverse_spec mini_loads is_ws_str ie c))
+                && mirrored)
         end in
       (agree, inside && spec_ok, false)
   end.
@@ -163,12 +178,15 @@ Definition c19_verdict (k : c19_case) : verdict :=
 (* what the model computes, for replay files *)
 Inductive c19_expl :=
 | XSplit (model spec : list text)
+| XIndent (model spec : text)
 | XRev (model : list (nat * res (list text))) (domain : bool) (spec : list text)
 | XJsonl (inside : bool) (mfwd mrev : res (list jval * bool)).
 
 Definition c19_explain (k : c19_case) : c19_expl :=
   match k with
   | CSplit rt _ _ => let t := expand rt in XSplit (iter_splitlines gen_breaks t) (iter_splitlines_spec t)
+  | CIndent rt rm rn _ =>
+      XIndent (indent gen_breaks (expand rt) (expand rm) (expand rn)) (indent_spec (expand rt) (expand rm) (expand rn))
   | CRev rc m pos rruns =>
       let c := expand rc in
       let p := pos_of c pos in
